@@ -566,6 +566,76 @@ func init() {
 		sb.WriteString("/-- statements of groupingContext.scanGroupingTags (depth:kind) -/\n")
 		sb.WriteString("def scanGroupingShape : List String := " + LeanStrList(shape) + "\n\n")
 
+		// ---- TrieBucketBuilder.Write: how a bucket's sorted keys are cut into trie blocks
+		fsb, tbb, err := ParseFile(repo, "index/model/trie_bucket_builder.go")
+		if err != nil {
+			return "", err
+		}
+		bw := FindFunc(tbb, "TrieBucketBuilder", "Write")
+		if bw == nil {
+			return "", fmt.Errorf("TrieBucketBuilder.Write not found")
+		}
+		var blockStmts []string
+		ast.Inspect(bw.Body, func(n ast.Node) bool {
+			switch x := n.(type) {
+			case *ast.AssignStmt:
+				if len(x.Lhs) == 1 {
+					if id, ok := x.Lhs[0].(*ast.Ident); ok && (id.Name == "numBlocks" || id.Name == "start" || id.Name == "end") {
+						blockStmts = append(blockStmts, c10Src(fsb, x))
+					}
+				}
+			case *ast.IncDecStmt:
+				if id, ok := x.X.(*ast.Ident); ok && id.Name == "numBlocks" {
+					blockStmts = append(blockStmts, c10Src(fsb, x))
+				}
+			case *ast.IfStmt:
+				blockStmts = append(blockStmts, "if "+c10Src(fsb, x.Cond))
+			case *ast.ForStmt:
+				h := "for "
+				if x.Init != nil {
+					h += c10Src(fsb, x.Init)
+				}
+				h += "; "
+				if x.Cond != nil {
+					h += c10Src(fsb, x.Cond)
+				}
+				h += "; "
+				if x.Post != nil {
+					h += c10Src(fsb, x.Post)
+				}
+				blockStmts = append(blockStmts, h)
+			case *ast.CallExpr:
+				if exprName(x.Fun) == "builder.Build" {
+					var as []string
+					for _, a := range x.Args {
+						as = append(as, c10Src(fsb, a))
+					}
+					blockStmts = append(blockStmts, "Build("+strings.Join(as, ", ")+")")
+				}
+			}
+			return true
+		})
+		sb.WriteString("/-- the block arithmetic of TrieBucketBuilder.Write in source order -/\n")
+		sb.WriteString("def trieBlockSplit : List String := " + LeanStrList(blockStmts) + "\n")
+		// the block sizes used by the flush and by the compaction merge
+		var flushBlock string
+		ast.Inspect(FindFunc(ks, "indexKVStore", "Flush"), func(n ast.Node) bool {
+			if c, ok := n.(*ast.CallExpr); ok && exprName(c.Fun) == "newIndexKVFlusher" && len(c.Args) > 0 {
+				flushBlock = c10Src(fsb, c.Args[0])
+			}
+			return true
+		})
+		var mergeBlock string
+		if nb := FindFunc(tb, "", "NewTrieBucket"); nb != nil {
+			ast.Inspect(nb, func(n ast.Node) bool {
+				if c, ok := n.(*ast.CallExpr); ok && exprName(c.Fun) == "NewTrieBucketWithBlockSize" && len(c.Args) > 0 {
+					mergeBlock = c10Src(fsb, c.Args[0])
+				}
+				return true
+			})
+		}
+		sb.WriteString("def trieBlockSizes : List String := " + LeanStrList([]string{flushBlock, mergeBlock}) + "\n\n")
+
 		// ---- Rewrite() formats
 		_, ex, err := ParseFile(repo, "sql/stmt/expr.go")
 		if err != nil {
